@@ -376,11 +376,21 @@ impl Walrus {
                 };
                 let col_name = md.owned_by;
 
+                // Every header records where its block ends; blocks allocated for an entry larger
+                // than one unit span several units
+                let mut block_limit = DEFAULT_BLOCK_SIZE;
+                if md.next_block_start > block_offset {
+                    let extent = md.next_block_start - block_offset;
+                    if extent % DEFAULT_BLOCK_SIZE == 0 && block_offset + extent <= MAX_FILE_SIZE {
+                        block_limit = extent;
+                    }
+                }
+
                 // scan entries to compute used
                 let block_stub = Block {
                     id: next_block_id as u64,
                     offset: block_offset,
-                    limit: DEFAULT_BLOCK_SIZE,
+                    limit: block_limit,
                     used: 0,
                     file_path: file_path.clone(),
                     mmap: mmap.clone(),
@@ -392,7 +402,7 @@ impl Walrus {
                             used += consumed as u64;
                             in_block_off += consumed as u64;
                             entries_in_block = entries_in_block.saturating_add(1);
-                            if in_block_off >= DEFAULT_BLOCK_SIZE {
+                            if in_block_off >= block_limit {
                                 break;
                             }
                         }
@@ -406,7 +416,7 @@ impl Walrus {
                 let block = Block {
                     id: next_block_id as u64,
                     offset: block_offset,
-                    limit: DEFAULT_BLOCK_SIZE,
+                    limit: block_limit,
                     used,
                     file_path: file_path.clone(),
                     mmap: mmap.clone(),
@@ -429,7 +439,7 @@ impl Walrus {
                     );
                 }
                 next_block_id += 1;
-                block_offset += DEFAULT_BLOCK_SIZE;
+                block_offset += block_limit;
             }
         }
 
